@@ -48,7 +48,7 @@ PathOf(e) == IF Has(e, "path") THEN e.path ELSE <<>>
 TraceReset ==
   /\ Is("case") /\ AllDone
   /\ LET c == CfgOf(E) IN
-     /\ cfg' = c /\ exp' = Oracle(c) /\ step' = 0
+     /\ cfg' = c /\ step' = 0
      /\ tasks' = {} /\ res' = [k \in Nodes |-> "nil"] /\ out' = [k \in Nodes |-> NoId]
      /\ val' = [k \in Nodes |-> 0] /\ fat' = [k \in Nodes |-> NoF] /\ rrun' = [k \in Nodes |-> 0]
      /\ deps' = [k \in Nodes |-> {}] /\ callers' = [k \in Nodes |-> {}]
